@@ -974,6 +974,9 @@ class Engine:
         return f(self.to_real(p, l), self.to_real(p, r))
 
     def contains(self, p, container, x):
+        if isinstance(container, Host) and container.kind == 'dictview':
+            from . import heapmodels
+            return heapmodels.dictview_contains(self, p, container, x)
         if isinstance(container, Ref):
             c = p.heap[container.oid]
             if c[0] == 'list':
@@ -1076,14 +1079,14 @@ class Engine:
                 self.oblige(p, f'type.tuple.index{idx}', V.is_VCons(t), 'type')
                 return self.from_val(V.hd(t))
             raise Unsupported('dynamic subscript')
-        if isinstance(base, Ref):
+        if isinstance(base, Ref) or (isinstance(base, Host) and base.kind == 'dictview'):
             return self.world.heap_getitem(self, p, base, idx)
         if isinstance(base, (SStr, SBytes, SSeq)):
             return self.world.seq_getitem(self, p, base, idx)
         raise Unsupported(f'subscript of {base!r}')
 
     def store_subscript(self, p, base, idx, v):
-        if isinstance(base, Ref):
+        if isinstance(base, Ref) or (isinstance(base, Host) and base.kind == 'dictview'):
             return self.world.heap_setitem(self, p, base, idx, v)
         raise Unsupported(f'subscript store on {base!r}')
 
@@ -1109,6 +1112,15 @@ class Engine:
                 paths = nxt
             for q1, acc in paths:
                 out.append((q1, self.new_list(q1, acc)))
+        return out
+
+    def e_Yield(self, p, e, fr):
+        out = []
+        for q, v in (self.ev(p, e.value, fr) if e.value is not None else [(p, None)]):
+            if q.live:
+                ys = q.ghost['yields']
+                q.ghost['yields'] = ys[:-1] + (Concat(ys[-1], Unit(self.to_val(q, v))),)
+            out.append((q, None))
         return out
 
     def e_Call(self, p, e, fr):
@@ -1205,6 +1217,9 @@ class Engine:
         # declare locals
         for n in local_names(node):
             sc.declare(n)
+        is_gen = has_yield(node)
+        if is_gen:
+            p.ghost['yields'] = p.ghost.get('yields', ()) + (Empty(ValSeq),)
         self.current_fn.append(f.qual)
         try:
             res = self.run_block([p], node.body, fr)
@@ -1212,6 +1227,15 @@ class Engine:
             self.current_fn.pop()
         out = []
         for q in res:
+            if is_gen:
+                ys = q.ghost['yields']
+                q.ghost['yields'] = ys[:-1]
+                q.ret = None; q.returned = False
+                if q.exc is None:
+                    out.append((q, Host('seqiter', seq=ys[-1], ek='val')))
+                else:
+                    out.append((q, None))
+                continue
             if q.returned:
                 v = q.ret; q.ret = None; q.returned = False
                 out.append((q, v))
@@ -1281,6 +1305,19 @@ def dotted(e):
     if isinstance(e, ast.Name):
         parts.append(e.id); return '.'.join(reversed(parts))
     return None
+
+
+def has_yield(fn_node):
+    def walk(n):
+        for c in ast.iter_child_nodes(n):
+            if isinstance(c, (ast.FunctionDef, ast.Lambda, ast.AsyncFunctionDef)):
+                continue
+            if isinstance(c, (ast.Yield, ast.YieldFrom)):
+                return True
+            if walk(c):
+                return True
+        return False
+    return not isinstance(fn_node, ast.Lambda) and walk(fn_node)
 
 
 def loop_ordinals(fn_node):
